@@ -4,3 +4,4 @@ from dsim import ops_fault  # noqa: F401
 from dsim import ops_merge  # noqa: F401
 from dsim import ops_look  # noqa: F401
 from dsim import ops_geom  # noqa: F401
+from dsim import ops_resave  # noqa: F401
